@@ -13,10 +13,14 @@ def run(res, pool, tier, seed):
     allb = set(POLYH + POLYG)
     if tier == "quick":
         jobs = [dict(module="MC_BodyBody.tla", tag="catalogue", invariants=INVS, timeout=1500, batch=40,
-                     constants=dict(S=2, BODIES1=allb, BODIES2=allb, T=2, SEED=sd, NSHARD=25))]
+                     constants=dict(GENK=set(), NGEN=1, S=2, BODIES1=allb, BODIES2=allb, T=2, SEED=sd, NSHARD=25)),
+                dict(module="MC_BodyBody.tla", tag="general-hulls", invariants=INVS, timeout=1500, batch=40,
+                     constants=dict(GENK={5}, NGEN=8000, S=2, BODIES1=set(), BODIES2={"cube", "tet2", "hexObl"}, T=2, SEED=sd, NSHARD=20))]
     else:
         jobs = [dict(module="MC_BodyBody.tla", tag="catalogue", invariants=INVS, timeout=10000, batch=40,
-                     constants=dict(S=2, BODIES1=allb, BODIES2=allb, T=2, SEED=sd, NSHARD=3))]
+                     constants=dict(GENK=set(), NGEN=1, S=2, BODIES1=allb, BODIES2=allb, T=2, SEED=sd, NSHARD=3)),
+                dict(module="MC_BodyBody.tla", tag="general-hulls", invariants=INVS, timeout=10000, batch=40,
+                     constants=dict(GENK={4, 5, 6}, NGEN=6000, S=2, BODIES1=set(), BODIES2={"cube", "tet2", "hexObl", "octa"}, T=2, SEED=sd, NSHARD=6))]
     engine.run_jobs(res, jobs, pool)
     import traces
     traces.run_for(res, ["unit_tests", "driver"] if tier != "quick" else ["unit_tests"], {"C03"}, seed=seed + 2, nsessions=2500)
